@@ -627,14 +627,43 @@ def s_is_const(s, v):
     return s[0] == "Const" and s[1] == "int" and s[2] == v
 
 
-def deep_type(c):
-    """Type of an operand of a product as it appears in the flat C text:
-    nested products and x**1 are spliced in, so their first factor counts."""
-    if c[0] == "Product":
-        return "Product[0:" + deep_type(c[1][0]) + "]"
-    if c[0] == "Power" and s_is_const(c[2], 1):
-        return deep_type(c[1])
-    return c[0]
+def flat_factors(s, path=()):
+    """[(path, node)] of the factors of the flat product printed for *s*:
+    nested products, x**1 and x**2 (= x * x) are spliced in."""
+    if s[0] == "Product":
+        out = []
+        for i, c in enumerate(s[1]):
+            out += flat_factors(c, (*path, i))
+        return out
+    if s[0] == "Power" and s_is_const(s[2], 1):
+        return flat_factors(s[1], (*path, 0))
+    if s[0] == "Power" and s_is_const(s[2], 2):
+        return flat_factors(s[1], (*path, 0)) * 2
+    return [(path, s)]
+
+
+def replace_path(s, path, new):
+    if not path:
+        return new
+    return with_kid(s, path[0], replace_path(kids(s)[path[0]][1], path[1:], new))
+
+
+def operands(minimal):
+    """[(position label, path, node)] of the operator operands of the smallest
+    mistranslated sub-term; for products the operands of the flat C text."""
+    if minimal[0] in ("Product", "Power") and not (
+            minimal[0] == "Power" and minimal[2][0] == "Const"
+            and minimal[2][2] not in (1, 2)):
+        flat = flat_factors(minimal)
+        out, seen = [], set()
+        for path, node in flat:
+            if path in seen or not is_op(node) or not path:
+                continue
+            seen.add(path)
+            late = any(j >= 1 for j, (q, _) in enumerate(flat) if q == path)
+            out.append(("n" if late else "0", path, node))
+        return out
+    return [(pos, (i,), c) for i, (pos, c) in enumerate(kids(minimal)) if is_op(c)]
 
 
 def localise(spec, kind, expr, env):
@@ -655,13 +684,9 @@ def localise(spec, kind, expr, env):
     if kind == "float" and minimal[0] == "Quotient" and c_int_text(minimal[1]) \
             and c_int_text(minimal[2]):
         return minimal, "Quotient(int-typed operands)"
-    ch = kids(minimal)
-    spliced = minimal[0] in ("Product", "Power")
-    tname = deep_type if spliced else (lambda c: c[0])
+    ch = operands(minimal)
     probes = []
-    for i, (pos, c) in enumerate(ch):
-        if not is_op(c):
-            continue
+    for i, (pos, path, c) in enumerate(ch):
         try:
             cv = dom_int(c, env)[0] if kind == "int" else float(dom_float(c, env)[0])
         except Out:
@@ -669,12 +694,12 @@ def localise(spec, kind, expr, env):
         name = f"q{i}"
         env2 = dict(env)
         env2[name] = cv
-        probes.append((pos, tname(c), with_kid(minimal, i, ["Var", name]), env2))
+        probes.append((pos, c[0], replace_path(minimal, path, ["Var", name]), env2))
     cgen.prefetch(_units_quiet([(spec, kind, v, e2, False) for _, _, v, e2 in probes]))
     involved = [f"{pos}:{t}" for pos, t, v, e2 in probes
                 if judge_expr(spec, kind, v, e2, in_fragment=False)[0] == "good"]
     if not involved:
-        involved = [f"{pos}:{tname(c)}" for pos, c in ch if is_op(c)]
+        involved = [f"{pos}:{c[0]}" for pos, _, c in ch]
     return minimal, f"{minimal[0]}({','.join(sorted(set(involved)))})"
 
 
@@ -1527,8 +1552,7 @@ KNOWN = {
     # CCodeMapper.map_product drops the forced parentheses of the base class:
     # a * (b % c) -> 'a * b % c' (also the product x * x printed for x**2)
     "F16a": lambda sub, spec, fail: bool(re.match(
-        _VM + r"(Product\((.*,)?n:(Product\[0:)*Remainder\]*(,.*)?\)"
-        r"|Power\(base:(Product\[0:)*Remainder\]*\))$", fail.kind)),
+        _VM + r"(Product|Power)\((.*,)?n:Remainder(,.*)?\)$", fail.kind)),
     # comparison operands are printed with Python's precedences; in C == != <
     # bind tighter than & ^ |
     "F16b": lambda sub, spec, fail: bool(re.match(
